@@ -3,8 +3,11 @@
    prop_c02 / prop_c03 judge the implementation's result by the property itself (well-formedness,
    resp. the per-operation contract stated on rows/corners) without running the model's step. *)
 From Coq Require Import List NArith ZArith Bool Arith.
-From PF Require Export Mesh.Pure Mesh.GenIdx.
+From Coq Require Import QArith Qabs Qcanon.
+From PF Require Export Mesh.Pure Mesh.GenIdx Mesh.Smooth.
 Import ListNotations.
+Close Scope Qc_scope.
+Close Scope Q_scope.
 
 (* single-attribute transforms whose values are float arithmetic (checked by the harness within a
    tolerance); Coq checks the frame: everything except the target attribute is untouched *)
@@ -40,7 +43,10 @@ Inductive case :=
 | CFrame (f : fop) (m : mesh) (out : res) (klen : option nat)   (* out: the result with the target attribute removed; klen: its length *)
 | CGen (out : res)                                              (* generator output, attribute values blanked *)
 | CGenI (g : gdesc) (fl : list bool) (out : res)                (* same, for a generator with an index model; fl: winding flips *)
-| CLaw (l : law) (ms : list mesh).
+| CLaw (l : law) (ms : list mesh)
+(* LaplacianSmooth: the implementation's output values as exact dyadic rationals (mantissa, exponent),
+   compared with the rational model Mesh/Smooth.v laplacian_mesh (factor given as a dyadic as well) *)
+| CLap (t : topo) (idx : list nat) (d : list vec) (f : Z * Z) (k : nat) (out : list (list (Z * Z))).
 
 (* predicates used by the attribute filters of the harness *)
 Inductive pdesc := PGe (c : nat) (t : Z) | PLe (c : nat) (t : Z) | PEven (c : nat) | PAll | PNone.
@@ -93,6 +99,20 @@ Definition wfb_with (klen : option nat) (m : mesh) : bool :=
       && count_okb (topology m) (length (indices m)) && ssortedb (keys m)
   end.
 
+(* ------------------------------------------------------------------ Laplacian values over Q *)
+Definition dy (p : Z * Z) : Q :=
+  let (m, e) := p in
+  if (0 <=? e)%Z then inject_Z (m * 2 ^ e) else Qmake m (Z.to_pos (2 ^ (- e))).
+(* relative 1e-9 *)
+Definition close_q (a b : Q) : bool :=
+  Qle_bool (Qabs (Qminus a b)) (Qmult (Qmake 1 1000000000) (Qplus (Qmake 1 1) (Qabs b))).
+Definition lap_ok (t : topo) (idx : list nat) (d : list vec) (f : Z * Z) (k : nat) (out : list (list (Z * Z))) : bool :=
+  (length out =? length d)
+  && forallb (fun c =>
+       let model := laplacian_mesh t idx (Q2Qc (dy f)) k (map (fun v => Q2Qc (inject_Z (nth c v 0%Z))) d) in
+       forallb (fun p => close_q (dy (fst p)) (this (snd p)))
+               (combine (map (fun r => nth c r (0%Z, 0%Z)) out) model)) [0; 1; 2].
+
 (* ------------------------------------------------------------------ correspondence *)
 Definition inputs_ok (o : op) (ins : list mesh) : bool := forallb wfb ins && op_pre o ins.
 
@@ -108,6 +128,7 @@ Definition corr_ok (c : case) : bool :=
       | _ => false
       end
   | CLaw _ _ => true
+  | CLap t idx d f k out => lap_ok t idx d f k out
   end.
 
 (* ------------------------------------------------------------------ C02: the direct oracle is wfb *)
@@ -122,6 +143,7 @@ Definition prop_c02 (c : case) : bool :=
   | CGen out | CGenI _ _ out =>
       match out with Ok ms => forallb wfb ms | _ => true end   (* a rejected parameterisation is outside the quantifier *)
   | CLaw _ ms => forallb wfb ms
+  | CLap _ _ _ _ _ _ => true
   end.
 
 (* ------------------------------------------------------------------ C03: per-operation contracts *)
@@ -354,4 +376,5 @@ Definition prop_c03 (c : case) : bool :=
   | CFrame f m out klen => negb (wfb m) || frame_ok f m out klen
   | CGen _ | CGenI _ _ _ => true
   | CLaw l ms => law_ok l ms
+  | CLap t idx d f k out => lap_ok t idx d f k out
   end.
